@@ -47,19 +47,19 @@ type Binding struct {
 
 // SQLSite is one call of Exec/Query/QueryRow.
 type SQLSite struct {
-	Call     ssa.CallInstruction
-	Fn       *ssa.Function
-	Method   string
-	Recv     ssa.Value
-	Classes  map[HandleClass]bool // what the receiver may be, over all callers
-	Variants []*Variant
+	Call      ssa.CallInstruction
+	Fn        *ssa.Function
+	Method    string
+	Recv      ssa.Value
+	Classes   map[HandleClass]bool // what the receiver may be, over all callers
+	Variants  []*Variant
 	Undecided string
 
-	Positional  []ssa.Value       // positional arguments (index 0 = ?1)
+	Positional  []ssa.Value        // positional arguments (index 0 = ?1)
 	Named       map[string]Binding // named arguments ($X / @x), incl. synthetic ones
 	DynamicArgs bool
 	Holes       int
-	IsSchema    bool // executes the embedded schema script
+	IsSchema    bool   // executes the embedded schema script
 	evalFrame   *frame // when set, positional bindings are evaluated in this calling context
 }
 
